@@ -8,6 +8,7 @@ import (
 	"path"
 	"time"
 	"bytes"
+	"unsafe"
 	unix "syscall"
 	"potano.layercake/fs"
 	"potano.layercake/defaults"
@@ -180,12 +181,54 @@ func (fl *FileList) addSingleFile(info lineInfo) error {
 }
 
 
+// llistxattr and lgetxattr do not follow symbolic links (package syscall has only the
+// following variants): a symlink member carries its own attributes, not its target's
+func llistxattr(path string, dest []byte) (int, error) {
+	p, err := unix.BytePtrFromString(path)
+	if err != nil {
+		return -1, err
+	}
+	var d unsafe.Pointer
+	if len(dest) > 0 {
+		d = unsafe.Pointer(&dest[0])
+	}
+	sz, _, errno := unix.Syscall(unix.SYS_LLISTXATTR, uintptr(unsafe.Pointer(p)), uintptr(d),
+		uintptr(len(dest)))
+	if errno != 0 {
+		return -1, errno
+	}
+	return int(sz), nil
+}
+
+
+func lgetxattr(path, attr string, dest []byte) (int, error) {
+	p, err := unix.BytePtrFromString(path)
+	if err != nil {
+		return -1, err
+	}
+	a, err := unix.BytePtrFromString(attr)
+	if err != nil {
+		return -1, err
+	}
+	var d unsafe.Pointer
+	if len(dest) > 0 {
+		d = unsafe.Pointer(&dest[0])
+	}
+	sz, _, errno := unix.Syscall6(unix.SYS_LGETXATTR, uintptr(unsafe.Pointer(p)),
+		uintptr(unsafe.Pointer(a)), uintptr(d), uintptr(len(dest)), 0, 0)
+	if errno != 0 {
+		return -1, errno
+	}
+	return int(sz), nil
+}
+
+
 func getXattrs(filename string) map[string]string {
 	namebuf := make([]byte, 256)
-	sz, err := unix.Listxattr(filename, namebuf)
+	sz, err := llistxattr(filename, namebuf)
 	for err == unix.ERANGE {
 		namebuf = make([]byte, 2 * len(namebuf))
-		sz, err = unix.Listxattr(filename, namebuf)
+		sz, err = llistxattr(filename, namebuf)
 	}
 	if err != nil {
 		return nil
@@ -197,10 +240,10 @@ func getXattrs(filename string) map[string]string {
 			continue
 		}
 		name := string(nm)
-		sz, err := unix.Getxattr(filename, name, value)
+		sz, err := lgetxattr(filename, name, value)
 		for err == unix.ERANGE {
 			value = make([]byte, 2 * len(value))
-			sz, err = unix.Getxattr(filename, name, value)
+			sz, err = lgetxattr(filename, name, value)
 		}
 		if err != nil {
 			continue
